@@ -34,6 +34,10 @@ for _cx in ("-print0", "-printf '%p '", "-fprint A"):
 for _a, _b in (("-printf '%p\\n'", "-print"), ("-print", "-printf '%p %s\\n'")):
     for _op in (" ", " -o ", " , "):
         PROGRAMS += [_a + _op + _b, _b + _op + _a, _a + _op + _b + _op + _a]
+# plain-mode formats whose final newline follows a character that is special to the target's string or template syntax, written
+# literally and as an octal escape: the record must still end in the newline (a `~` left single would swallow it)
+for _sp in ("~", "\\176", "\\042", "\\134", "%%", "\\045", "\\012", "\\176\\176"):
+    PROGRAMS += ["-printf '%p" + _sp + "\\n'", "-printf '" + _sp + "\\n'", "-print , -printf '%s " + _sp + "\\n'"]
 PROGRAMS = list(dict.fromkeys(PROGRAMS))
 
 
